@@ -7,7 +7,6 @@ import (
 	"errors"
 	"fmt"
 	"io"
-	"math"
 	"unicode/utf8"
 
 	"github.com/ohler55/ojg"
@@ -339,12 +338,12 @@ func (t *Tokenizer) tokenizeBuffer(buf []byte, last bool) {
 				if digitMap[b] != numDigit {
 					break
 				}
-				t.num.Frac = t.num.Frac*10 + uint64(b-'0')
-				t.num.Div *= 10.0
-				if math.MaxInt64 < t.num.Frac {
-					t.num.FillBig()
+				if gen.BigLimit < t.num.Div { // no room for another digit, AddFrac switches to text
+					t.num.AddFrac(b)
 					break
 				}
+				t.num.Frac = t.num.Frac*10 + uint64(b-'0')
+				t.num.Div *= 10.0
 			}
 			off += i
 			if digitMap[b] == numDigit {
